@@ -1,7 +1,7 @@
 (** C03 — property theorems (statements only; proofs by [exact]).
     [Rep t xs]: the treap [t] denotes the sequence [xs] (Proofs.v); [lawful]: the item interface. *)
 From Coq Require Import ZArith List Bool.
-From RlibV Require Import C03.Model C03.Proofs C03.ProofsInst.
+From RlibV Require Import C03.Model C03.Corr C03.Proofs C03.ProofsInst C03.ProofsCorr.
 Import ListNotations.
 Open Scope Z_scope.
 
@@ -44,3 +44,8 @@ Proof. exact isz_lawful. Qed.
 (** the assign-or-add item (non-commuting modifications) satisfies the interface *)
 Theorem c03_iaa_lawful : lawful iaa_update iaa_push asize iaa_modify ax asm amod_act zsum iaa_pending.
 Proof. exact iaa_lawful. Qed.
+
+(** on every correspondence case, agreement with the model implies the list-of-lists specification: the batch lemma
+    about the model carries the specification to the implementation by proof *)
+Theorem c03_model_check_spec_check : forall c : case, model_check c = true -> spec_check c = true.
+Proof. exact model_check_spec_check. Qed.
